@@ -14,9 +14,9 @@ BASELINE_OFF = (
 # property -> (spec modules, technique, level text, level note, design ref)
 CHECKS = {
     "C05": dict(
-        engine="PoolMap",
-        technique="TLC model checking of spec/PoolMap.tla (feasible completion orders x 4 consumers) + replay of every TLC terminal behaviour through a fake multiprocessing.Pool into the real entry points; thorough: trace validation of the real Pool against PoolMapTrace",
-        text="TLC enumerates every feasible completion order of a W-worker pool (W up to NT+1, NT up to 4/5 tasks; 6 for pair counting) and checks the consumers' folds are order independent; each of those orders is replayed on the real Catalog(), build_trees, count_pairs, HistData.from_catalog, and random feasible orders on crosscorrelate/autocorrelate, comparing bit-exact digests with the max_workers=1 run. The worlds use closed=left (and right) with every fourth redshift exactly on a bin edge, so the closed side must survive every pickling boundary; every other schedule runs with the progress display on, so results pass through the Indicator wrapper. Exhaustive over schedules for small task counts, which no test can reach because the suite pins one worker.",
+        engine="PoolMap+PoolChunks",
+        technique="TLC model checking of spec/PoolMap.tla (feasible completion orders x 4 consumers) + replay of every TLC terminal behaviour through a fake multiprocessing.Pool into the real entry points; thorough: trace validation of the real Pool against PoolMapTrace; TLC model checking of spec/PoolChunks.tla (dispatch in chunks: a chunk is evaluated and pickled as a whole; per-process result buffers) with every terminal behaviour replayed on the Pool stand-in and, thorough tier, on the real multiprocessing.Pool",
+        text="TLC enumerates every feasible completion order of a W-worker pool (W up to NT+1, NT up to 4/5 tasks; 6 for pair counting) and checks the consumers' folds are order independent; each of those orders is replayed on the real Catalog(), build_trees, count_pairs, HistData.from_catalog, and random feasible orders on crosscorrelate/autocorrelate, comparing bit-exact digests with the max_workers=1 run. The worlds use closed=left (and right) with every fourth redshift exactly on a bin edge, so the closed side must survive every pickling boundary; every other schedule runs with the progress display on, so results pass through the Indicator wrapper. Exhaustive over schedules for small task counts, which no test can reach because the suite pins one worker. PoolChunks.tla extends the dispatch model to imap_unordered with a chunk size (OwnValue, ExactlyOnce, ChunkContiguous, FeasibleChunkOrder; deviation SharedBuffers is harmless with chunksize 1 and wrong above), which is what the Pool stand-in now implements; a world of 9 densely linked patches gives more than 32 pair jobs per worker.",
         note="Trusts the fake Pool's dispatch rule (in-order, chunksize 1, pickling) - validated against the real multiprocessing.Pool in the thorough tier; tasks of one map are assumed to touch disjoint files.",
         ref="DESIGN.md 3.2, 4 C05",
     ),
